@@ -21,12 +21,13 @@ MANIFEST = dict(
     text="Coq theorems over the model of TypeParser.coerce instantiated with the coercion tables and issubclass "
          "matrix translated from the live source on every run: C20_conforms (every accepted value conforms to the "
          "declared type, element types included — all types of the grammar, all values, both superclass_auto_cast "
-         "settings, any file-system), C20_at_assignment / C20_field_history (the task-field converter stores only "
-         "conforming values, over every history of assignments), C20_idempotent_union_free (re-coercing an accepted "
-         "value leaves it unchanged for union-free types) with C20_idempotent_refuted (a union whose earlier arm "
-         "converts the later arm's result), C20_no_str_seq_refuted (str->set, set->str, bytes->list on the pinned "
-         "tables: finding F20) and C20_no_str_seq_partial (no other string<->collection conversion exists). "
-         "Partial where stated: idempotence and no-split/join hold only outside the recorded finding classes.",
+         "settings, any file-system), C20_at_assignment / C20_field_history / C20_rejected_assignment_keeps_value "
+         "(the task-field converter stores only conforming values over every history of assignments; a rejected "
+         "assignment raises there and changes nothing), C20_full (no accepted coercion splits a str/bytes into a "
+         "collection or joins a collection into a str/bytes — holds since the repair of finding F20), "
+         "C20_idempotent_union_free (re-coercing an accepted value leaves it unchanged for types whose only unions are Optional[...]) with "
+         "C20_idempotent_refuted (a union whose earlier arm converts the later arm's result: finding F20c). Partial "
+         "for idempotence only.",
     note="Trusted: Coq kernel + vm_compute; hand-written model of expand_and_coerce / check_coercible / "
          "make_converter (tables are translated, the algorithm is not); fileformats' acceptance of a path for "
          "File/TextFile/Directory and Python's constructors (str, bytes, Path, set, dict, ...) are modelled, "
@@ -473,7 +474,7 @@ def gen_case(rng):
 
 
 SEEDS = [
-    # the F20 witnesses and the corner cases met while building the model
+    # the witnesses of (repaired) finding F20 and the corner cases met while building the model
     (("set", False, ("base", "str")), ("str", "abc")),
     (("base", "str"), ("set", (("str", "a"),))),
     (("list", ("base", "int")), ("bytes", "ab")),
@@ -541,8 +542,6 @@ Definition spec_conf (c : case_t) : bool :=
 Definition spec_idem (c : case_t) : bool := let '(t, v, rc, rs, rf, ra) := c in on_ok rc (fun x => res_equiv ra (Ok x)).
 Definition spec_nss_full (c : case_t) : bool :=
   let '(t, v, rc, rs, rf, ra) := c in on_ok rc (nss no_pairs v) && on_ok rf (nss no_pairs v).
-Definition spec_nss_f20 (c : case_t) : bool :=
-  let '(t, v, rc, rs, rf, ra) := c in on_ok rc (nss f20_pairs v) && on_ok rf (nss f20_pairs v).
 Definition in_idem_domain (c : case_t) : bool := let '(t, v, rc, rs, rf, ra) := c in union_free t.
 Definition modelled (c : case_t) : bool :=
   let '(t, v, rc, rs, rf, ra) := c in
@@ -554,7 +553,7 @@ def run(ctx):
     rng = ctx.rng
     world = World()
     try:
-        n = ctx.budget(1200, 16000)
+        n = ctx.budget(1200, 12000)
         cases = [(t_norm(c["type"]), v_norm(c["value"])) for c in ctx.corpus() if "type" in c]
         cases += SEEDS
         while len(cases) < n:
@@ -563,7 +562,7 @@ def run(ctx):
         extra = world.coq_fs() + EXTRA
         checks = {"tie_call": "tie_call", "tie_sac": "tie_sac", "tie_field": "tie_field", "tie_again": "tie_again",
                   "spec_conf": "spec_conf", "spec_idem": "spec_idem", "spec_nss_full": "spec_nss_full",
-                  "spec_nss_f20": "spec_nss_f20", "idem_domain": "in_idem_domain", "modelled": "modelled"}
+                  "idem_domain": "in_idem_domain", "modelled": "modelled"}
         res = coqio.run_cases(ctx.scratch, "c20", IMPORTS, "case_t", terms, checks, extra=extra, shard=400)
         seen, nontrivial = set(), 0
         dist = {"accepted_unchanged": 0, "accepted_converted": 0, "rejected_TypeError": 0, "rejected_other": 0,
@@ -611,16 +610,11 @@ def run(ctx):
             out.failures.append(Failure(case=case_of(m), observed={k: m[k] for k in ("call", "sac", "field")},
                                         expected="a value conforming to %s" % m["type_str"],
                                         note="stored value does not conform to the declared type", kind="spec"))
-        f20 = set(res["spec_nss_full"])
-        for i in res["spec_nss_full"]:
+        for i in res["spec_nss_full"][:8]:
             m = meta[i]
-            known = i not in res["spec_nss_f20"]
-            if known and sum(1 for f in out.failures if f.finding == "F20") >= 5:
-                continue
             out.failures.append(Failure(case=case_of(m), observed={"call": m["call"], "field": m["field"]},
                                         expected="rejected, or stored without splitting a string / joining a collection",
-                                        note="string split into a collection or collection joined into a string",
-                                        finding="F20" if known else None, kind="spec"))
+                                        note="string split into a collection or collection joined into a string", kind="spec"))
         idem_dom = set(range(len(meta))) - set(res["idem_domain"])     # indices where union_free t holds
         for i in res["spec_idem"]:
             m = meta[i]
@@ -630,7 +624,6 @@ def run(ctx):
             out.failures.append(Failure(case=case_of(m), observed={"first": m["call"], "second": m["again"]},
                                         expected="coercing the accepted value again returns it unchanged",
                                         note="coercion is not idempotent", finding="F20c" if known else None, kind="spec"))
-        out.extra["nss_f20_cases"] = len(f20)
         out.extra["idem_failures"] = len(res["spec_idem"])
         out.merge(run_history(ctx, world))
         return out
@@ -661,7 +654,7 @@ Definition spec_hist (c : hcase_t) : bool := let '(t, v0, vs, oks, fin) := c in 
 
 def run_history(ctx, world):
     rng = ctx.rng
-    n = ctx.budget(150, 1500)
+    n = ctx.budget(150, 1200)
     terms, meta = [], []
     tries = 0
     while len(terms) < n and tries < n * 20:
@@ -753,12 +746,12 @@ def replay(ctx, payload):
         vals = coqio.eval_terms(ctx.scratch, "replay", IMPORTS,
                                 ["coerce live W false %s %s" % (t_coq(t), enc(x)),
                                  "assign live W %s %s" % (t_coq(t), enc(x)),
-                                 "match coerce live W false %s %s with Ok x => (conformsb live %s x, nss no_pairs %s x, nss f20_pairs %s x) | Err _ => (true, true, true) end"
-                                 % (t_coq(t), enc(x), t_coq(t), enc(x), enc(x))],
+                                 "match coerce live W false %s %s with Ok x => (conformsb live %s x, nss no_pairs %s x) | Err _ => (true, true) end"
+                                 % (t_coq(t), enc(x), t_coq(t), enc(x))],
                                 extra=world.coq_fs())
         print("model coerce :", world.collapse(vals[0]))
         print("model assign :", world.collapse(vals[1]))
-        print("spec (conforms, no split/join, no split/join outside F20):", vals[2])
+        print("spec (conforms, no split/join):", vals[2])
     finally:
         world.close()
     return 0
